@@ -25,7 +25,8 @@ RULE = (
     "equal to re.sub on the original node, element skeleton unchanged; with formatted=True the ODF reading of "
     "the tree equals the reading of the expected per-node result and no text node carries TAB/LF or an "
     "un-encoded space run; search/search_first/search_all/match/text_at agree with re on the ODF reading of "
-    "the root. The library entry points of the odfdo-replace and odfdo-highlight scripts are run on whole "
+    "the root. A third of the replace calls are made on a span or link that sits inside the tree (its tail "
+    "may match too): only its own content may change or count, the whole tree is compared. The library entry points of the odfdo-replace and odfdo-highlight scripts are run on whole "
     "generated documents and compared with the same model (text nodes / highlighted character ranges). "
     "Class = (call, pattern kind, where matches fall: text / tail / inside span / several nodes, "
     "formatted, replacement kind, root tag)."
@@ -81,9 +82,15 @@ def logical(n):
     return "".join(out)
 
 
-def model_replace(n, rx, new):
-    """Apply re.subn to every text node of a deep copy. -> (copy, count, per-node situations)"""
-    m = copy.deepcopy(n)
+def inner_elements(n):
+    return [e for e in n.iter(TX + "span", TX + "a") if e is not n]
+
+
+def model_replace(n, rx, new, target=None):
+    """Apply re.subn to every text node of a deep copy (of the target-th inner span/link only when a
+    target is given: its own tail belongs to its parent). -> (copy, count, per-node situations)"""
+    root = copy.deepcopy(n)
+    m = root if target is None else inner_elements(root)[target]
     count = 0
     sits = set()
     for e in m.iter():
@@ -103,7 +110,7 @@ def model_replace(n, rx, new):
             count += k
             if new is not None:
                 e.tail = rx.sub(new, e.tail)
-    return m, count, sits
+    return root, count, sits
 
 
 def text_node_list(n):
@@ -128,8 +135,14 @@ def judge(root_xml, call, res=None):
     if fn == "replace":
         new = call.get("new")
         fmt = call.get("formatted", False)
-        model, exp_count, sits = model_replace(n, rx, new)
+        inner = inner_elements(n)
+        target = call["target"] % len(inner) if call.get("target") is not None and inner else None
+        model, exp_count, sits = model_replace(n, rx, new, target)
         before_xml = etree.tostring(n, encoding="unicode", with_tail=False)
+        if target is not None:
+            # the call is made on a span / link that sits inside the tree: only its own content is concerned
+            el = Element.from_tag(inner[target])
+            sits = {x + "@inner" for x in sits} | ({"tail-follows"} if inner[target].tail and rx.search(inner[target].tail) else set())
         try:
             got = el.replace(call["pattern"], new, formatted=fmt) if new is not None else el.replace(call["pattern"], formatted=fmt)
         except Exception as e:
@@ -160,7 +173,7 @@ def judge(root_xml, call, res=None):
             else:
                 # encoded as in a freshly created paragraph: the consumer reads exactly that string
                 proj = odftext.project(n)
-                strict = any(ch in new for ch in " \t\n")
+                strict = any(ch in new for ch in " \t\n") and target is None
                 # a replacement without white space may turn an existing, untouched space into the
                 # first/last character of the paragraph: re-encoding neighbours is not demanded
                 # (nor is re-encoding of two untouched spaces brought together by a deletion)
@@ -221,9 +234,9 @@ def gen_call(rng):
     r = rng.random()
     if r < 0.5:
         rk, new = rng.choice(REPLS)
-        return {"fn": "replace", "pattern": pat, "pkind": pk, "new": new, "rkind": rk, "formatted": rng.random() < 0.6, "nolink": True}
+        return {"fn": "replace", "pattern": pat, "pkind": pk, "new": new, "rkind": rk, "formatted": rng.random() < 0.6, "nolink": True, "target": rng.choice([None, None, rng.randrange(8)])}
     if r < 0.62:
-        return {"fn": "replace", "pattern": pat, "pkind": pk, "new": None, "formatted": rng.random() < 0.4}
+        return {"fn": "replace", "pattern": pat, "pkind": pk, "new": None, "formatted": rng.random() < 0.4, "target": rng.choice([None, None, rng.randrange(8)])}
     fn = rng.choice(["search", "search_first", "search_all", "match", "text_at"])
     call = {"fn": fn, "pattern": pat, "pkind": pk}
     if fn == "text_at":
